@@ -335,7 +335,10 @@ B = ["MATH-TABLES", "BACKEND-SIBLING", "TYPE-ROLES", "KERNEL-SIG", "LIT-DIGITS"]
 V("be-cos-is-sin", ["C09"], B, "fire", (CF, "        \"cos\": \"cosf\",", "        \"cos\": \"sinf\","))
 V("be-float64-uses-float", ["C09"], B, "fire", (CF, "    \"float64\": {\n        \"sqrt\": \"sqrt\",", "    \"float64\": {\n        \"sqrt\": \"sqrtf\","))
 V("be-complex-uses-real", ["C09"], B, "fire", (CF, "        \"exp\": \"cexp\",", "        \"exp\": \"exp\","))
-V("be-float32-missing-key", ["C09"], B, "fire", (CF, "        \"erf\": \"erff\",\n", ""))
+# a missing float32 key falls back to the double function on a promoted argument: same value to float precision -> benign
+V("be-float32-missing-key", ["C09"], B, "benign", (CF, "        \"erf\": \"erff\",\n", ""))
+# a missing complex key falls back to the real function: the imaginary part is discarded by the implicit conversion
+V("be-complex64-missing-key", ["C09"], B, "fire", (CF, "        \"sqrt\": \"csqrtf\",\n", ""))
 V("be-geom-type-scalar", ["C09"], B, "fire",
   ("ffcx/codegeneration/C/integral.py", "        geom_type=dtype_to_c_type(dtype_to_scalar_dtype(options[\"scalar_type\"])),  # type: ignore", "        geom_type=dtype_to_c_type(options[\"scalar_type\"]),  # type: ignore"))
 V("be-complex-h-inverted", ["C09"], B, "fire", ("ffcx/codegeneration/C/file.py", "    if np.issubdtype(options[\"scalar_type\"], np.complexfloating):", "    if not np.issubdtype(options[\"scalar_type\"], np.floating):\n        pass\n    if np.issubdtype(options[\"scalar_type\"], np.floating):"))
@@ -397,3 +400,18 @@ V("repair-piecewise-scope-per-rule", ["C01", "C11"], ["SCOPE-KEY"], "repair",
   (IG, 'return self.generate_partition(arraysymbol, F, "piecewise", None, None)',
        'return self.generate_partition(arraysymbol, F, "piecewise", quadrature_rule, domain)'),
   expect_key="shared-scope-vs-per-rule-classification")
+
+# ---- C17 PASS-EQUIV: translation validation of the optimiser passes ---------------------------------
+OPTF = "ffcx/codegeneration/optimizer.py"
+PE = ["PASS-EQUIV"]
+V("pass-licm-temp-too-small", ["C17"], PE, "fire", (OPTF, "                size = outer_loop.end.value - outer_loop.begin.value", "                size = outer_loop.end.value - outer_loop.begin.value - 1"))
+V("pass-licm-temp-accumulates", ["C17"], PE, "benign", (OPTF, "                body = L.Assign(\n", "                body = L.AssignAdd(\n"))
+V("pass-licm-hoist-single", ["C17"], PE, "benign", (OPTF, "            if len(hoist_candidates) > 1:", "            if len(hoist_candidates) > 0:"))
+V("pass-licm-dependency-missed", ["C17"], PE, "fire", (OPTF, "                    if index in i.args:\n                        return True", "                    if index in i.args:\n                        return False"))
+V("pass-licm-temp-indexed-by-inner", ["C17"], PE, "fire", (OPTF, "                r.args.append(L.ArrayAccess(temp, [outer_loop.index]))", "                r.args.append(L.ArrayAccess(temp, [inner_loop.index]))"))
+V("pass-licm-drops-a-candidate", ["C17"], PE, "fire", (OPTF, "                    L.ArrayAccess(temp, [outer_loop.index]), L.Product(hoist_candidates)", "                    L.ArrayAccess(temp, [outer_loop.index]), L.Product(hoist_candidates[:1])"))
+V("pass-fuse-loops-ignores-end", ["C17"], PE, "fire", (OPTF, "            id = (statement.index, statement.begin, statement.end)", "            id = (statement.index, statement.begin, statement.begin)"),
+  (OPTF, "        output_code.append(L.ForRange(*range, body))", "        output_code.append(L.ForRange(range[0], range[1], body[0].statements[0].end if False else L.LiteralInt(3), body))"))
+V("pass-fuse-sections-drops-declarations", ["C17"], PE, "fire", (OPTF, "                declarations.extend(section.declarations)\n", ""))
+V("pass-fuse-sections-keeps-last-only", ["C17"], PE, "fire", (OPTF, "                statements.extend(section.statements)", "                statements = list(section.statements)"))
+V("pass-optimize-skips-licm", ["C17"], PE, "benign", (OPTF, "            if L.Annotation.licm in section.annotations:\n                section = licm(section, quadrature_rule)", "            if False:\n                section = licm(section, quadrature_rule)"))
